@@ -46,6 +46,18 @@ def EvalOut.same : EvalOut → EvalOut → Bool
 or equal as numbers (`+0.0 == -0.0`), per component -/
 def leafEquiv (a b : CFloat) : Bool := CFloat.closeF 0.0 a.1 b.1 && CFloat.closeF 0.0 a.2 b.2
 
+/-- "the same numeric leaf" as far as this driver can observe: identical bits per component, or both NaN
+(Lean's `Float.toBits` canonicalises NaNs, so NaN payloads/signs are not observable here); the sign of a
+zero IS distinguished. -/
+def leafSame (a b : CFloat) : Bool :=
+  (a.1.toBits == b.1.toBits || (a.1.isNaN && b.1.isNaN)) && (a.2.toBits == b.2.toBits || (a.2.isNaN && b.2.isNaN))
+
+/-- exact tree comparison of a model tree with an implementation tree (as s-expression) -/
+def sameTreeS (m : Expr CFloat) (iS : Sexp) : Bool :=
+  match decodeExpr iS with
+  | some i => m.beqWith leafSame i
+  | none => false
+
 def EvalOut.isOk : EvalOut → Bool
   | .ok _ => true
   | .err _ => false
@@ -177,7 +189,7 @@ def handleIter (inp out : Sexp) (eS : Sexp) : CaseResult :=
 
 /-! ### `(c13seq …)`, `(c13instr …)`, `(c13text …)`: sequences, instruction-level and text routes -/
 
-def exprEqS (m : Expr CFloat) (i : Sexp) : Bool := encodeExpr m == i
+def exprEqS (m : Expr CFloat) (i : Sexp) : Bool := sameTreeS m i
 
 /-- differs from the model only in what `ArcIntern`'s coarse equality can merge (known finding) -/
 def onlyInternDiff (m : Expr CFloat) (iS : Sexp) : Bool :=
@@ -204,8 +216,8 @@ def handleSeq (inp out : Sexp) : CaseResult :=
           let mEval := ofExcept (eval ρ μ e)
           let mSimpSubst := subst σ1 iSimp      -- substitution into the implementation's simplified tree
           let a1 := exprEqS mTwice twiceS
-          let a2 := mTwiceVal.cmp iTwiceVal > 0
-          let a3 := mEval.cmp iBefore > 0 && mEval.cmp iAfter > 0
+          let a2 : Bool := decide (mTwiceVal.cmp iTwiceVal > 0)
+          let a3 : Bool := decide (mEval.cmp iBefore > 0) && decide (mEval.cmp iAfter > 0)
           let a4 := exprEqS e eAgainS
           let a5 := exprEqS mSimpSubst simpSubstS
           let a6 := exprEqS mFirst firstS && exprEqS mFirst firstAgainS
@@ -321,7 +333,7 @@ def handle (inp out : Sexp) : CaseResult :=
           let c1 := mEval.cmp iEval
           let c3 := mAfter.cmp iAfter
           let c4 := mBound.cmp iBound
-          let substAgree := encodeExpr mSubst == o2
+          let substAgree := mSubst.beqWith leafSame iSubst
           let refsAgree := mRefs == iRefs
           let agree := c1 > 0 && c3 > 0 && c4 > 0 && substAgree && refsAgree
           -- known-finding classifier `C13/interning-merges-signed-zero` (as narrow as the cause): the
